@@ -19,6 +19,7 @@ type GenParams struct {
 	MaxSteps  int
 	LongTail  bool // tail long enough for repeat_interval obligations
 	DeepTree  bool
+	Flap      bool // prefix: resolve, then re-fire while the (slow) resolved notification is in flight
 }
 
 func ip(i int) *int { return &i }
@@ -229,7 +230,56 @@ func GenScenario(t *rapid.T, p GenParams) Scenario {
 		}
 		return r, idx
 	}
-	for i := 0; i < n; i++ {
+	if p.Flap && rapid.Bool().Draw(t, "flap") {
+		// A targeted prefix: the focus alert fires, its receiver becomes slow, the alert resolves, and it
+		// fires again a few seconds after the flush tick that reports the resolution (delivery in flight).
+		ls := rapid.IntRange(0, len(sc.LabelSets)-1).Draw(t, "flapls")
+		rts := cfg.Match(sc.LabelSets[ls])
+		rt := rts[0]
+		gw, gi := int(rt.GroupWait.Seconds()), int(rt.GroupInterval.Seconds())
+		t0 := sc.Opts.StartDelay + sampled(t, "flapt0", 1, 5, 30)
+		idx := 0
+		if rc := cfg.ReceiverByName(rt.Receiver); rc != nil && len(rc.Integrations) > 1 {
+			idx = rapid.IntRange(0, len(rc.Integrations)-1).Draw(t, "flapidx")
+		}
+		slow := sampled(t, "flapslow", 5, 20)
+		sc.Steps = append(sc.Steps,
+			Step{Dt: t0, Op: "post", Alerts: []PostAlert{{LS: ls, End: ip(3600)}}},
+			Step{Dt: 1, Op: "behave", Behave: &Behave{Receiver: rt.Receiver, Idx: idx, Kind: "slow", D: slow}},
+		)
+		// resolve somewhere after the first flush
+		rAt := t0 + 1 + gw + sampled(t, "flapres", 2, 10, 40)
+		sc.Steps = append(sc.Steps, Step{Dt: rAt - (t0 + 1), Op: "post", Alerts: []PostAlert{{LS: ls, End: ip(-1)}}})
+		// next tick at t0 + gw + k*gi >= rAt
+		kk := 0
+		for t0+gw+kk*gi < rAt {
+			kk++
+		}
+		tick := t0 + gw + kk*gi
+		delta := sampled(t, "flapdelta", 0, 1, 3)
+		if delta >= slow {
+			delta = slow - 1
+		}
+		var end *int
+		if rapid.Bool().Draw(t, "flapend") {
+			end = ip(600)
+		}
+		sc.Steps = append(sc.Steps, Step{Dt: tick + delta - rAt, Op: "post", Alerts: []PostAlert{{LS: ls, End: end}}})
+		if end != nil && rapid.IntRange(0, 3).Draw(t, "flapprobe") > 0 {
+			// a sample instant while the re-fired alert is still firing and the knowledge obligation is due
+			w := gw
+			if gi > w {
+				w = gi
+			}
+			if w+125 < 590 {
+				sc.Steps = append(sc.Steps, Step{Dt: w + 125, Op: "get-groups"})
+			}
+		} else if rapid.Bool().Draw(t, "flapok") {
+			sc.Steps = append(sc.Steps, Step{Dt: sampled(t, "flapokdt", 1, 30, 90), Op: "behave", Behave: &Behave{Receiver: rt.Receiver, Idx: idx, Kind: "ok"}})
+		}
+	}
+	base := len(sc.Steps)
+	for i := base; i < base+n; i++ {
 		st := Step{Dt: sampled(t, "dt", 0, 1, 5, 10, 20, 30, 45, 60, 90, 120, 300, 600, 1000)}
 		k := rapid.IntRange(0, 19).Draw(t, "op")
 		switch {
